@@ -754,7 +754,7 @@ func (self *LockManager) UpdateLockedLock(lock *Lock, command *protocol.LockComm
 				lock.expriedTime = lock.startTime + int64(command.Expried) + 1
 			}
 		} else {
-			lock.expriedTime = lock.startTime + int64(command.Expried)/1000 + 1
+			lock.expriedTime = lock.startTime + (int64(command.Expried)+999)/1000 + 1
 		}
 
 		if command.TimeoutFlag&protocol.TIMEOUT_FLAG_UPDATE_NO_RESET_TIMEOUT_CHECKED_COUNT == 0 {
